@@ -613,6 +613,18 @@ def _listing(d, case):
     return sorted(x[len(pre): len(x) - len(suf)] for x in os.listdir(d) if x.startswith(pre) and x.endswith(suf))
 
 
+def _scratch_base():
+    """Scratch directories go below the runner's per-run directory (the one holding the shard's
+    --out file), which the parent removes even when the watchdog has to kill the shard."""
+    import sys
+
+    if "--out" in sys.argv[:-1]:
+        d = os.path.dirname(os.path.abspath(sys.argv[sys.argv.index("--out") + 1]))
+        if os.path.isdir(d):
+            return d
+    return None
+
+
 def _exec_dir(case, mon):
     import torch
     from pydrobert.torch import command_line
@@ -621,7 +633,7 @@ def _exec_dir(case, mon):
     valid = mode is None
     partial, retain = case["partial"], case["retain"]
     mon.observe("dir_config", "%s/%s/%s/%s" % (policy, wt, mode, "lobe" if lobe else "nolobe"))
-    tmp = tempfile.mkdtemp(prefix="vmon-c10-")
+    tmp = tempfile.mkdtemp(prefix="vmon-c10-", dir=_scratch_base())
     try:
         in_dir, out_dir = os.path.join(tmp, "in"), os.path.join(tmp, "out")
         _write_dir(case, in_dir)
